@@ -70,7 +70,7 @@ Res(t, k, s, p) ==
      IN Go(1, <<>>, p)
   ELSE IF s.g = "N"   THEN [s |-> Val("N", 0, <<>>), p |-> p + 1]
   ELSE IF s.g = "Bad" THEN [s |-> Val("Bad", 0, <<>>), p |-> p + 1]
-  ELSE IF s.g = "T"   THEN [s |-> Val("F", s.n, <<>>), p |-> p + 1]
+  ELSE IF s.g \in {"T", "D"} THEN [s |-> Val("F", s.n, <<>>), p |-> p + 1]
   ELSE [s |-> Val("F", Fid(t, k, p + 1), <<>>), p |-> p + 1]
 Resolve(t, k, s) == Res(t, k, s, 0).s
 
@@ -82,7 +82,7 @@ SLeaves(t, k, s, p) ==
          Go(i, acc, pp) == IF i > Len(s.xs) THEN [l |-> acc, p |-> pp]
                            ELSE LET r == SLeaves(t, k, s.xs[i], pp) IN Go(i + 1, acc \o r.l, r.p)
      IN Go(1, <<>>, p)
-  ELSE [l |-> <<[g |-> s.g, n |-> s.n, f |-> IF s.g = "T" THEN s.n ELSE Fid(t, k, p + 1)]>>, p |-> p + 1]
+  ELSE [l |-> <<[g |-> IF s.g = "D" THEN "T" ELSE s.g, n |-> s.n, f |-> IF s.g \in {"T", "D"} THEN s.n ELSE Fid(t, k, p + 1)]>>, p |-> p + 1]
 StaticLeaves(t, k, s) == SLeaves(t, k, s, 0).l
 
 ItemOut(mode, kind, f) ==       \* what a flush of that kind does to item f (a function of the item only)
@@ -95,7 +95,7 @@ ItemOut(mode, kind, f) ==       \* what a flush of that kind does to item f (a f
 LeafOutStatic(P, g, n, f, TO(_)) ==
   CASE g = "N"   -> VNone
     [] g = "Bad" -> VX(50000)
-    [] g = "T"   -> TO(n)
+    [] g \in {"T", "D"} -> TO(n)
     [] g = "I"   -> ItemOut(P.kinds[n].flush, n, f)
     [] g = "C"   -> VC(n)
     [] g = "E"   -> VX(200000 + f - FID0)
@@ -115,7 +115,7 @@ SOut(P, t, k, s, p) ==      \* [v |-> value or first failure in structure order,
      IN [v |-> IF fails # {} THEN r.vs[CHOOSE i \in fails : \A j \in fails : i <= j]
                ELSE Val(LowerTag(s.g), 0, r.vs),
          p |-> r.p]
-  ELSE LET f == IF s.g = "T" THEN s.n ELSE Fid(t, k, p + 1)
+  ELSE LET f == IF s.g \in {"T", "D"} THEN s.n ELSE Fid(t, k, p + 1)
            TO(u) == TaskOut(P, u)
        IN [v |-> LeafOutStatic(P, s.g, s.n, f, TO), p |-> p + 1]
 
@@ -155,7 +155,10 @@ NoThrowKind(P) == \A k \in 1..Len(P.kinds) : P.kinds[k].flush # "throw"
 \* an exception raised by BatchBase.flush() itself (31000 + kind)
 IsEscape(v) == IsX(v) /\ (v.n = 80000 \/ (v.n >= 31000 /\ v.n < 32000))
 NoStackLimit(P) == "maxstack" \notin DOMAIN P
-SeqDomain(P) == NoFaultyCtx(P) /\ ~HasCtxType(P, "nonasync") /\ NoSpawnKind(P) /\ NoStackLimit(P)   \* where sequential evaluation is the oracle
+HasDedup(P, t) == "dedup" \in DOMAIN P.tasks[t]
+NoDedup(P) == \A t \in 1..Len(P.tasks) : ~HasDedup(P, t)
+DedupKey(P, t) == <<P.tasks[t].dedup.fn, P.tasks[t].dedup.key>>     \* (function, normalised arguments); one thread
+SeqDomain(P) == NoFaultyCtx(P) /\ ~HasCtxType(P, "nonasync") /\ NoSpawnKind(P) /\ NoStackLimit(P) /\ NoDedup(P)   \* where sequential evaluation is the oracle
 
 (* every task is named at most once (as T leaf or sync target) in the whole program *)
 TaskRefs(P) ==     \* sequence of referenced task ids, with repetitions
